@@ -1,1 +1,130 @@
+(* C18 — GEOS-Chem binary punch read/write round trip and scaling.
+   Statements only. Models: Base/Words.v (Fortran record framing), Model/Bpch.v (bpch layout: spec codec
+   `enc`/`dec`, `view_of`; the library's reader `impl_open` = bpch1.__init__ + variable access built on the
+   dtype literals TRANSLATED into Gen/Bpch.v; the writer `impl_write` = ncf2bpch with the translated pads; the
+   dict-based table lookup `impl_lookup`).
+   Domain `wf T D f` = bpch-convention content: field widths, >= 1 time block, every time block repeats the
+   tracers of the first with the same metadata, one model grid per file, one time stamp per time block, no
+   tracer twice in a time block, distinct variable names, <= 48 layers (default vertgrid).
+   Clause (4) of the property (the block-walking reader bpch2 presents the same data) has NO theorem: bpch2 cannot
+   run in this environment (known finding C18-bpch2-cannot-run) and is not modelled. *)
 From PNC Require Import Base.Util Base.Words Gen.Bpch Model.Bpch Proofs.WordsProofs Proofs.BpchProofs.
+From Coq Require Import String QArith.
+Import Coq.Lists.List. Import ListNotations.
+Local Open Scope Z_scope.
+
+(* Spec codec: the record-walking decoder recovers titles and every data block from the spec encoding,
+   for every content with the right field widths (any number of time blocks, tracers, layers). *)
+Theorem C18_dec_enc : forall f, wf_shape f = true ->
+  dec (enc f) = Some (f_ftype f, f_title f, concat (f_times f)).
+Proof. exact dec_enc. Qed.
+Print Assumptions C18_dec_enc.
+
+(* Clause (2), lookup part: with unique table keys the dict-based lookup of the library uses THE tracerinfo line whose
+   number is offset(category) + tracer id (offset 0 when diaginfo has no line for the category): name, SCALE, unit. *)
+Theorem C18_scale_lookup : forall T D cat tid u e off,
+  tables_ok T D = true -> In e T -> t_ord e = tid + off ->
+  (In (cat, off) D \/ (off = 0 /\ forall o, ~ In (cat, o) D)) ->
+  impl_lookup T D cat tid u = (TName (t_name e), t_scale e, UTab (t_unit e)).
+Proof. exact scale_lookup. Qed.
+Print Assumptions C18_scale_lookup.
+
+Theorem C18_lookup_is_association : forall T D cat tid u,
+  tables_ok T D = true -> impl_lookup T D cat tid u = spec_lookup T D cat tid u.
+Proof. exact impl_lookup_spec. Qed.
+Print Assumptions C18_lookup_is_association.
+
+(* Clauses (1)-(3), reader: for every bpch-convention content EXCEPT one tracer x two time blocks, the reader
+   model presents exactly the content: titles, model record, every tracer's ids / unit / reserved / dims / nested-grid
+   offsets, the SCALE and unit of the table entry offset(category)+id, the time bounds of every time block and
+   the raw data of every tracer at every time (scaled reading multiplies these by v_scale: Corr `scaled_ok`).
+   _partial: the excluded shape is refuted below. *)
+Theorem C18_reader_presents_content_partial : forall T D f,
+  wf T D f = true -> tables_ok T D = true -> one_by_two f = false ->
+  impl_open T D (enc f) (4 * lenZ (enc f)) = Ok (view_of T D f).
+Proof. exact read_enc. Qed.
+Print Assumptions C18_reader_presents_content_partial.
+
+(* Clause (1): reading without scaling and writing back reproduces the original words. *)
+Theorem C18_read_write_bytes_partial : forall T D f,
+  wf T D f = true -> tables_ok T D = true -> one_by_two f = false ->
+  exists v, impl_open T D (enc f) (4 * lenZ (enc f)) = Ok v /\ impl_write v = enc f.
+Proof. exact read_write_bytes. Qed.
+Print Assumptions C18_read_write_bytes_partial.
+
+(* The writer alone needs no exclusion: it produces the spec encoding of every bpch-convention content. *)
+Theorem C18_writer_conforms : forall T D f, wf T D f = true -> impl_write (view_of T D f) = enc f.
+Proof. exact write_view. Qed.
+Print Assumptions C18_writer_conforms.
+
+(* Clause (3): writing any bpch-convention view (its blocks form a wf file and its names/scales/units are those of
+   the tables) and reading the result returns the same view: tracer data, time bounds, ids, grid header. *)
+Theorem C18_write_read_partial : forall T D v,
+  wf T D (file_of v) = true -> tables_ok T D = true -> one_by_two (file_of v) = false ->
+  view_of T D (file_of v) = v ->
+  impl_write v = enc (file_of v) /\ impl_open T D (impl_write v) (4 * lenZ (impl_write v)) = Ok v.
+Proof. exact write_read. Qed.
+Print Assumptions C18_write_read_partial.
+
+(* Translation validation (tie T): reader and writer header layouts agree field by field (the writer's `dim` is
+   the reader's f13+f14), pads are the record payload sizes, skip = data bytes + 8. *)
+Theorem C18_layouts :
+  map (fun f => snd (fst f) * snd f) bw_datablock_header_type
+    = [4; 20; 8; 4; 4; 4; 4; 40; 4; 40; 8; 8; 40; 24; 4; 4]
+  /\ dtype_itemsize bw_datablock_header_type = dtype_itemsize bp_datablock_header_type
+  /\ bw_hpad1 = 4 * 9 /\ bw_hepad1 = bw_hpad1 /\ bw_hpad2 = 4 * 42 /\ bw_hepad2 = bw_hpad2
+  /\ bw_gpad1 = 4 * 10 /\ bw_gepad1 = bw_gpad1 /\ bw_gpad2 = 4 * 20 /\ bw_gepad2 = bw_gpad2
+  /\ (forall n, bw_skip n = n + 8)
+  /\ bp_first_header_size (dtype_itemsize ght) (dtype_itemsize dht) = 356
+  /\ bp_walk_start (dtype_itemsize ght) = 136.
+Proof. exact writer_layout. Qed.
+Print Assumptions C18_layouts.
+
+(* ---- refutations: the full statement ("for all files with 1..n time blocks ...") is false of the faithful model *)
+Definition C18_blk (tau0 : Z) (tid nz : Z) (d : list word) : block :=
+  {| b_model := [1195724627; 893334327; 1277173792; 538976288; 538976288; 1084227584; 1082130432; 1; 1];
+     b_cat := [1229598017; 1447505188; 538976288; 538976288; 538976288; 538976288; 538976288; 538976288; 538976288; 538976288];
+     b_tid := tid; b_unit := repeat 538976288 10; b_tau := [tau0; 0; tau0 + 1; 0]; b_resv := repeat 538976288 10;
+     b_nx := 1; b_ny := 1; b_nz := nz; b_start := [1; 1; 1]; b_data := d |}.
+Definition C18_file (times : list (list block)) : bfile :=
+  {| f_ftype := repeat 538976288 10; f_title := repeat 538976288 20; f_times := times |}.
+
+(* one tracer, two time blocks: the header walk adds the tracer twice (offset == file_size on the repeated header) and
+   numpy rejects the duplicate field name — the file cannot be opened at all *)
+Theorem C18_one_tracer_two_times_refuted : exists T D f,
+  wf T D f = true /\ tables_ok T D = true /\ one_by_two f = true
+  /\ impl_open T D (enc f) (4 * lenZ (enc f)) = Err.
+Proof.
+  exists [], [], (C18_file [[C18_blk 1083129856 1 1 [1065353216]]; [C18_blk 1083129857 1 1 [1073741824]]]).
+  vm_compute. repeat split; reflexivity.
+Qed.
+Print Assumptions C18_one_tracer_two_times_refuted.
+
+(* a tracer with more than 48 layers under the default vertgrid: the "not consistent" warning's format string raises *)
+Theorem C18_more_than_48_layers_refuted : exists T D f,
+  wf_shape f = true /\ tables_ok T D = true /\ one_by_two f = false /\ length (f_times f) = 1%nat
+  /\ impl_open T D (enc f) (4 * lenZ (enc f)) = Err.
+Proof.
+  exists [], [], (C18_file [[C18_blk 1083129856 1 49 (repeat 1065353216 49)]]).
+  vm_compute. repeat split; reflexivity.
+Qed.
+Print Assumptions C18_more_than_48_layers_refuted.
+
+(* ---- non-vacuity ------------------------------------------------------------------------------------------ *)
+Definition C18_T : tinfo := [ {| t_ord := 1; t_name := 0; t_scale := 1000000000 # 1; t_unit := 0 |};
+                              {| t_ord := 2002; t_name := 1; t_scale := 1 # 8; t_unit := 1 |} ].
+Definition C18_D : dinfo := [ (b_cat (C18_blk 0 0 1 []), 0); (repeat 1128808781 10, 2000) ].
+Definition C18_blk2 (tau0 : Z) (d : list word) : block :=
+  {| b_model := b_model (C18_blk 0 0 1 []); b_cat := repeat 1128808781 10; b_tid := 2; b_unit := repeat 538976288 10;
+     b_tau := [tau0; 0; tau0 + 1; 0]; b_resv := repeat 538976288 10; b_nx := 2; b_ny := 1; b_nz := 3;
+     b_start := [3; 4; 1]; b_data := d |}.
+Definition C18_example : bfile :=
+  C18_file [[C18_blk 1083129856 1 1 [1065353216]; C18_blk2 1083129856 [1; 2; 3; 4; 5; 6]];
+            [C18_blk 1083129857 1 1 [1073741824]; C18_blk2 1083129857 [7; 8; 9; 10; 11; 12]]].
+Example C18_hyp_inhabited :
+  wf C18_T C18_D C18_example = true /\ tables_ok C18_T C18_D = true /\ one_by_two C18_example = false
+  /\ length (enc C18_example) = 276%nat
+  /\ map v_scale (r_vars (view_of C18_T C18_D C18_example)) = [1000000000 # 1; 1 # 8]
+  /\ file_of (view_of C18_T C18_D C18_example) = C18_example
+  /\ scaled_ok (1000000000 # 1) 1073741824 1324247848 = true.
+Proof. vm_compute. repeat split; reflexivity. Qed.
